@@ -78,7 +78,7 @@ def nonvacuity(ctx, cases_path, bug, invariants, properties=(), expect=None, **k
     return r.violated[0] if r.violated and isinstance(r.violated[0], str) else True
 
 
-def replay(ctx, cases_path, behs, layouts=None, bystander=None):
+def replay(ctx, cases_path, behs, layouts=None, bystander=None, texts=None):
     """spec -> code.  behs: list of behaviours, or the path of an ndjson file.  Returns (stats, diffs)."""
     if isinstance(behs, str):
         bp = behs
@@ -91,6 +91,8 @@ def replay(ctx, cases_path, behs, layouts=None, bystander=None):
         args += ["--layouts", layouts]
     if bystander:
         args += ["--bystander", bystander]
+    if texts:
+        args += ["--texts", texts]
     p = ctx.harness(args, timeout=1200)
     stats = json.loads(p.stdout.strip().splitlines()[-1])
     return stats, vlib.read_ndjson(out)
@@ -331,6 +333,36 @@ def run_core_check(ctx, spec):
         cases, _ = load_cases(path)
         if len(cases) < 30:
             raise vlib.MachineryError("only %d of %d hand-written scripts were converted: %s" % (len(cases), conv["scripts"], conv["skipped"]))
+        if sp.get("mc"):
+            # every choice path / completion schedule of every hand-written script up to the bound, enumerated by TLC
+            # on the parsed program and replayed on the original text
+            mc = sp["mc"]
+            kw = {k: v for k, v in mc.items() if k not in ("invariants", "properties")}
+            cfgname, cfgpath = mc_cfg(ctx, "MC_%s_scripts.cfg" % ctx.prop, invariants=mc["invariants"], properties=mc.get("properties", []), **kw)
+            r = model_check(ctx, path, cfgname, cfgpath, label="MC_Runner[hand-written scripts]: %s" % ",".join(mc["invariants"]))
+            beh_path = ctx.path("beh_scripts_%d.ndjson" % ctx.n_tlc)
+            nbeh = r.printed_to_file("BEH", beh_path)
+            if not nbeh:
+                raise vlib.MachineryError("MC_Runner emitted no behaviour for the hand-written scripts")
+            by_id = {c["id"]: c for c in cases}
+            stats, diffs = replay(ctx, path, beh_path, texts=tpath)
+            behs = vlib.read_ndjson_lines(beh_path, [d["beh"] for d in diffs[:200]])
+            for d in diffs[:200]:
+                steps = behs[d["beh"]]["steps"]
+                prior = [s_ for s_ in steps[: max(d["step"], 0)] if s_.get("ev") == "next"]
+                info = {"after_end": any(s_["out"]["k"] == "end" for s_ in prior), "after_error": any(s_["out"]["k"] == "error" for s_ in prior),
+                        "pend": bool(d["step"] >= 0 and steps[d["step"]].get("pend")), "ev": "next", "family": "scripts", "panic": d.get("panic")}
+                if spec["scope"](d["field"], d.get("exp"), d.get("got"), info):
+                    ctx.violation(beh_payload(by_id, behs, d),
+                                  "replayed model behaviour of a hand-written script (script %s, step %d): %s%s"
+                                  % (conv["accepted"][d["case"] - 1], d["step"], describe_diff(d["field"], d.get("exp"), d.get("got")),
+                                     (" [panic: %s]" % d["panic"]) if d.get("panic") else ""),
+                                  signature=spec["sig"] + ":scripts:" + d["field"])
+                else:
+                    oos += 1
+            evaluations += stats["behaviours"]
+            nontrivial += stats["behaviours"]
+            ctx.cover(scripts_behaviours_replayed=stats["behaviours"], scripts_replay_steps=stats["steps"])
         for mode in sp.get("modes", [None]):
             args = ["core", "record", "--cases", path, "--texts", tpath, "--out", ctx.path("trace_scripts_%s.ndjson" % (mode or "walk")),
                     "--paths", sp["paths"][t], "--calls", sp.get("calls", 80)]
